@@ -1,3 +1,4 @@
+import AquaVerif.Proofs.RunClosed
 import AquaVerif.Proofs.Run
 import AquaVerif.Proofs.WaterDay
 /-
@@ -208,5 +209,22 @@ skipped, where the water content is reset to the stored initial content and pond
 configured bund water — for every reachable run state, no premise. -/
 theorem stored_water_carried_over {F : Fn α} {T : TrigFn α} {cfg : RunCfg α} {s : RunState α}
     (hr : RunReach F T cfg s) : CarriedAll cfg s.daysRev := run_stored_water_carried_over hr
+
+/-! ### run level, per-day premises discharged (`Proofs/RunClosed*.lean`) -/
+
+section closed
+variable {α : Type} [Field α] [LinearOrder α] [IsStrictOrderedRing α]
+
+/-- **Run level, closed.** The daily soil-water balance closes on every simulated day of every
+run: premises on the configuration only (`CfgOK`), plus — with a water table — that capillary rise
+did not overshoot saturation on the simulated days (`ResidualW`; vacuous without a water table). -/
+theorem run_closes_closed {F : Fn α} {T : TrigFn α} {cfg : RunCfg α} {s : RunState α}
+    (hC : CfgOK F T cfg) (hr : RunReach F T cfg s) (hR : ∀ d ∈ s.daysRev, ResidualW d) :
+    ∀ d ∈ s.daysRev,
+      storage d.r.state.cells + d.r.state.pond =
+        storage d.st.cells + d.st.pond + d.r.flux.infl + d.r.water.preIrr + d.r.water.irrNet
+          + d.r.water.crAdded + d.r.flux.gwIn - d.r.flux.deepPerc - d.r.flux.es - d.r.flux.tr :=
+  Aqua.run_closes_closed hC hr hR
+end closed
 
 end Aqua.C01
